@@ -57,6 +57,11 @@ var c07Layouts = []c07Layout{
 		_, mo, d, h, mi, s := c07Date(e)
 		return fmt.Sprintf("%s %2d %02d:%02d:%02d", time.Month(mo).String()[:3], d, h, mi, s)
 	}},
+	// no year, but a zone offset in the value
+	{"Jan _2 15:04:05 -0700", true, func(e *Env) string {
+		_, mo, d, h, mi, s := c07Date(e)
+		return fmt.Sprintf("%s %2d %02d:%02d:%02d %s", time.Month(mo).String()[:3], d, h, mi, s, []string{"+0000", "-0700", "+0530"}[e.Choose("gen", 3)])
+	}},
 	{"2006-01-02 15:04:05.000", false, func(e *Env) string {
 		y, mo, d, h, mi, s := c07Date(e)
 		return fmt.Sprintf("%04d-%02d-%02d %02d:%02d:%02d.%03d", y, mo, d, h, mi, s, e.Choose("gen", 1000))
@@ -69,14 +74,15 @@ var c07Layouts = []c07Layout{
 
 func c07Program(ls []int) string {
 	var sb strings.Builder
-	sb.WriteString("gauge ts\ncounter hit by k\ngauge mark\n")
+	// txt and fl are assigned the value they already hold on every line: an update is an update
+	sb.WriteString("gauge ts\ncounter hit by k\ngauge mark\ntext txt\ngauge fl\n")
 	for i, li := range ls {
-		fmt.Fprintf(&sb, "/^%c (?P<v>.*)$/ {\n  strptime($v, \"%s\")\n  ts = timestamp()\n  hit[\"%c\"]++\n}\n", 'A'+i, c07Layouts[li].layout, 'A'+i)
+		fmt.Fprintf(&sb, "/^%c (?P<v>.*)$/ {\n  strptime($v, \"%s\")\n  ts = timestamp()\n  hit[\"%c\"]++\n  txt = \"same\"\n  fl = 2.5\n}\n", 'A'+i, c07Layouts[li].layout, 'A'+i)
 	}
-	sb.WriteString("/^S (?P<n>-?\\d+)$/ {\n  settime($n)\n  ts = timestamp()\n  hit[\"S\"]++\n}\n")
-	sb.WriteString("/^N/ {\n  ts = timestamp()\n  hit[\"N\"]++\n}\n")
+	sb.WriteString("/^S (?P<n>-?\\d+)$/ {\n  settime($n)\n  ts = timestamp()\n  hit[\"S\"]++\n  txt = \"same\"\n  fl = 2.5\n}\n")
+	sb.WriteString("/^N/ {\n  ts = timestamp()\n  hit[\"N\"]++\n  txt = \"same\"\n  fl = 2.5\n}\n")
 	// strptime after an update: only data updated afterwards carry the parsed instant
-	sb.WriteString("/^M (?P<v>.*)$/ {\n  mark = 1\n  strptime($v, \"" + c07Layouts[ls[0]].layout + "\")\n  hit[\"M\"]++\n}\n")
+	sb.WriteString("/^M (?P<v>.*)$/ {\n  mark = 1\n  strptime($v, \"" + c07Layouts[ls[0]].layout + "\")\n  hit[\"M\"]++\n  txt = \"same\"\n  fl = 2.5\n}\n")
 	return sb.String()
 }
 
@@ -118,6 +124,7 @@ func propC07(e *Env) {
 		return nil
 	}
 	mts, mhit, mmark := find("ts"), find("hit"), find("mark")
+	mtxt, mfl := find("txt"), find("fl")
 	cfg := fmt.Sprintf("layouts %v, override location %s, syslog-current-year %v", func() []string {
 		var s []string
 		for _, li := range ls {
@@ -316,6 +323,17 @@ func propC07(e *Env) {
 			}
 			e.Fail(cls, "%s: hit[%s] was updated after the time register was set and carries %v, expected %v", ctxt, hitKey, got.UTC(), want.UTC())
 			return
+		}
+		for _, m := range []*metrics.Metric{mtxt, mfl} {
+			w := m.FindLabelValueOrNil(nil)
+			if w == nil {
+				e.Broken("%s: %s has no datum after the line", ctxt, m.Name)
+				return
+			}
+			if got := w.Value.TimeUTC(); representable && !got.Equal(want) {
+				e.Fail("datum-stamp", "%s: %s was assigned (the value it already held) after the time register was set and carries %v, expected %v", ctxt, m.Name, got.UTC(), want.UTC())
+				return
+			}
 		}
 		if kind == "M" {
 			// mark was assigned BEFORE strptime on that line: processing time
